@@ -111,7 +111,55 @@ def run_harnesses(repo_copy, workdir, harnesses, tier):
     for t in th: t.join()
     if errors:
         raise errors[0]
+    # E3: replay every counterexample natively against the real code (sequentially: it edits the scratch copy)
+    for h, r in results:
+        pb = r.get("playback")
+        if r.get("status") == "FAILED" and pb and pb.get("test_src") and not h.get("expect_fail") and r.get("stubs"):
+            pb.pop("test_src")
+            pb["native_replay"] = {"ran": False, "why": "the harness relies on #[kani::stub]s (%d, listed in the evidence); native playback does not apply stubs and would run different code, so only the counterexample values are recorded" % len(r["stubs"])}
+        elif r.get("status") == "FAILED" and pb and pb.get("test_src") and not h.get("expect_fail"):
+            try:
+                pb["native_replay"] = native_replay(repo_copy, h["package"], h, pb.pop("test_src"))
+            except Exception as e:      # replay is best effort; the Kani verdict stands
+                pb["native_replay"] = {"ran": False, "why": str(e)[:300]}
+        elif pb:
+            pb.pop("test_src", None)
     return results
+
+def native_replay(repo_copy, pkg, h, test_src):
+    """Run Kani's concrete-playback unit test as a NATIVE test (`cargo kani playback`): the harness body
+    executes on the real code with the counterexample's values.  #[kani::stub]s are not applied natively,
+    so a counterexample that depends on a stub (recorded arguments, abstracted primitive) may not reproduce;
+    that is reported as such."""
+    name = "verif_playback_" + h["harness"]
+    test_src = re.sub(r"fn kani_concrete_playback_\w+\(\)", "fn %s()" % name, test_src, count=1)
+    done = False
+    for rel, mod, modname in INJECT.get(pkg, []):
+        src = os.path.join(VERIF, mod)
+        if not os.path.exists(src) or not re.search(r"\b%s\b" % re.escape(h["harness"]), open(src).read()):
+            continue
+        dst = os.path.join(repo_copy, "verif_playback_" + os.path.basename(mod))
+        open(dst, "w").write(open(src).read() + "\n" + test_src + "\n")
+        p = os.path.join(repo_copy, rel)
+        txt = open(p).read()
+        if ('#[path = "%s"]' % src) not in txt:
+            continue
+        open(p, "w").write(txt.replace('#[path = "%s"]' % src, '#[path = "%s"]' % dst))
+        done = True
+        break
+    if not done:
+        return {"ran": False, "why": "harness module not found"}
+    cmd = ["cargo", "kani", "playback", "-Z", "concrete-playback", "-p", pkg, "--", name, "--nocapture"]
+    out, wall, to, rc = _run(cmd, repo_copy, 900)
+    # undo the re-pointing so later runs in this scratch copy see the committed harness file
+    open(p, "w").write(txt)
+    m = re.search(r"panicked at ([^\n]*)\n([^\n]*)", out)
+    ran = "test result:" in out
+    failed = bool(re.search(r"test result: FAILED", out)) or (ran and bool(m) and "1 failed" in out)
+    return {"ran": ran, "cmd": " ".join(cmd), "reproduced_on_real_code": failed if ran else None,
+            "panic": (m.group(1) + ": " + m.group(2))[:400] if m else None,
+            "note": None if failed or not ran else "the harness passes natively: the counterexample depends on a #[kani::stub] (stubs are not applied in native playback)",
+            "wall_s": round(wall, 1), "tail": out[-600:] if not ran else ""}
 
 def _run_group(repo_copy, pkg, flags, hs):
     results = []
@@ -167,6 +215,7 @@ def playback(repo_copy, pkg, flags, h):
     cmd = ["cargo", "kani", "-p", pkg, "--harness", h["harness"], "-Z", "concrete-playback",
            "--concrete-playback=print"] + list(flags)
     out, wall, to, rc = _run(cmd, repo_copy, h.get("timeout", 300) + 120)
+    tm = re.search(r"```\n(.*?#\[test\].*?)\n```", out, flags=re.S)
     vals = []
     for m in re.finditer(r"vec!\[([0-9, ]*)\]", out):
         vals.append([int(x) for x in m.group(1).split(",") if x.strip()])
@@ -174,6 +223,8 @@ def playback(repo_copy, pkg, flags, h):
         return None
     d = {"harness": h["harness"],
          "note": "values of every kani::any() of the harness, in call order, little-endian bytes per value"}
+    if tm:
+        d["test_src"] = tm.group(1)
     if all(len(v) == 1 for v in vals):
         d["kani_any_bytes_in_order"] = [v[0] for v in vals]
     else:
